@@ -238,6 +238,7 @@ pub(crate) fn ref_in_gap(a: u8, ts: u8, ns: u8, hsa: u8) -> bool {
 }
 
 #[kani::proof]
+#[kani::unwind(4)]
 fn c12_gap_lemma() {
     let p = any_params();
     let mut st = FdlActiveStation::new(p.clone());
@@ -937,20 +938,21 @@ fn step_check_token_pass(log_on: bool) {
     }
     if pre.slot_expired(now) {
         // nothing heard for a slot time: repeat the pass (twice), then drop the successor
+        vassert!(matches!(s, Sent::Token { .. }), "C06/slot-timeout: a slot time of silence always ends the wait (also after a partial or undecodable reception), so that no disturbance leaves the bus silent for ever");
         let mut exp = Expect::new();
         let (want_ns, want_attempt, removed) = match attempt {
             PassTokenAttempt::First => (pre.ring.ns, PassTokenAttempt::Second, false),
             PassTokenAttempt::Second => (pre.ring.ns, PassTokenAttempt::Third, false),
             PassTokenAttempt::Third => {
                 let v = exp.call(3, pre.ring.ns, 0);
-                vassert!(exp.ok_so_far(), "C11/remove-silent: after the third unanswered pass exactly the silent successor is removed from the ring view");
+                vassert!(exp.ok_so_far(), "C06+C11/remove-silent: after the third unanswered pass exactly the silent successor is removed from the ring view");
                 (v.ns, PassTokenAttempt::First, true)
             }
         };
         if !removed {
             vassert!(Expect::new().no_removal(), "C11/never-remove-early: the successor is not removed before the third unanswered pass");
         }
-        vassert!(s == Sent::Token { da: want_ns, sa: ts }, "C11/retry: the pass is repeated to the same successor (at most twice), then goes to the next station");
+        vassert!(s == Sent::Token { da: want_ns, sa: ts }, "C06+C11/retry: the pass is repeated to the same successor (at most twice), then goes to the next station");
         let v = exp.call(1, ts, want_ns);
         vassert!(exp.done(&st), "C02/las: the own token pass is recorded in the ring view");
         let ns_after = v.ns;
@@ -1109,6 +1111,7 @@ fn step_claim_token(log_on: bool) {
                 }
             } else if pre.slot_expired(now) {
                 // no reply within the slot time: immediately go on with the scan
+                vassert!(st.state != State::ClaimToken { step }, "C06/slot-timeout: a slot time of silence always ends the wait (also after a partial or undecodable reception), so that no disturbance leaves the bus silent for ever");
                 vassert!(ring_untouched(&st), "C12/reply-evaluation: silence leaves the successor unchanged");
                 scan(&st, &s, pre.gap, pre.ring.ns);
             } else {
@@ -1258,6 +1261,7 @@ fn step_await_status_response(log_on: bool) {
         }
     } else if pre.slot_expired(now) {
         // silence: pass the token right away
+        vassert!(st.state != State::AwaitStatusResponse { address: a }, "C06/slot-timeout: a slot time of silence always ends the wait (also after a partial or undecodable reception), so that no disturbance leaves the bus silent for ever");
         check_own_pass(&st, &s, ts, pre.ring.ns, PassTokenAttempt::First, now);
     } else {
         vassert!(s == Sent::Nothing && st.state == State::AwaitStatusResponse { address: a } && ring_untouched(&st), "C12/gap-poll: the reply is awaited for one slot time");
@@ -1422,12 +1426,17 @@ fn step_use_token(log_on: bool, napps: usize) {
     } else {
         pre.end_hold
     };
-    vassert!(st.end_token_hold_time == want_end, "C13/hold-time: the token hold time ends one target rotation time after the previous token receipt (minus one GAP poll when one is pending)");
-    vassert!(st.last_token_time == data.token_time, "C13/hold-time: the receipt time of this visit's token is remembered for the next rotation");
     if !pre.pause_over(now) {
+        // nothing can be done with the token yet; the hold-time bookkeeping of a new visit may
+        // happen now or wait until the pause is over (it is then still the visit's first poll)
+        let booked = st.end_token_hold_time == want_end && st.last_token_time == data.token_time;
+        let deferred = st.end_token_hold_time == pre.end_hold && st.last_token_time == pre.last_token_time;
+        vassert!(booked || deferred, "C13/hold-time: the token hold time ends one target rotation time after the previous token receipt (minus one GAP poll when one is pending)");
         vassert!(s == Sent::Nothing && st.state == State::UseToken { data, first_cycle_done: fcd } && apps[0].tx_calls + apps[1].tx_calls + apps[2].tx_calls == 0, "C01/sync-pause: the token is used only after the synchronisation pause");
         return;
     }
+    vassert!(st.end_token_hold_time == want_end, "C13/hold-time: the token hold time ends one target rotation time after the previous token receipt (minus one GAP poll when one is pending)");
+    vassert!(st.last_token_time == data.token_time, "C13/hold-time: the receipt time of this visit's token is remembered for the next rotation");
     check_use_token(&st, &s, &apps, napps, pre.next_app, data, fcd, want_end, now, ts, 0);
     kani::cover!(first_poll && now >= want_end && !fcd, "cover: hold time already over on arrival");
     kani::cover!(true, "cover: token used");
@@ -1500,6 +1509,7 @@ fn step_await_data_response(log_on: bool, napps: usize) {
         return;
     }
     // time-out: delivered once, then the token is used again at once
+    vassert!(st.state != State::AwaitDataResponse { address, data } && apps[who].to_calls == 1, "C06/slot-timeout: a slot time of silence always ends the wait (also after a partial or undecodable reception), so that no disturbance leaves the bus silent for ever");
     vassert!(apps[who].to_calls == 1 && apps[who].rx_calls == 0 && apps[who].to_addr == address && apps[who].to_seq == 1, "C15/matched-reply: the time-out is delivered once, to the sender, before anything else happens");
     let first_poll = pre.last_token_time != data.token_time;
     let want_end = if first_poll {
